@@ -144,7 +144,8 @@ impl MemcStore {
                             value -= delta.delta;
                         }
                         record.value = Bytes::from(value.to_string());
-                        record.header = header;
+                        // keep the item's own flags and expiry; only the CAS condition comes from the request
+                        record.header.cas = header.cas;
                         self.set(key, record).map(|result| DeltaResult {
                             cas: result.cas,
                             value,
